@@ -385,8 +385,9 @@ def check_vec(kind, v, x, y, curve=()):
     return bad
 
 
-def vector_cases(F, fe_ty):
-    """yield (instance, fn, ok, msg) for the AVX2 parallel formulas (Hisil-Wong-Carter-Dawson, 4-way)"""
+def vector_cases(F, fe_ty, backend="avx2"):
+    """yield (instance, fn, ok, msg) for the AVX2 / IFMA parallel formulas (Hisil-Wong-Carter-Dawson, 4-way)"""
+    VX = r"backend::vector::%s::edwards::" % backend
     radix = FM.radix_for(F, fe_ty)
     CONST[0] = FM.FmModels(radix)
     x1, y1 = affine(1)
@@ -398,15 +399,15 @@ def vector_cases(F, fe_ty):
     ID = ((fconst(0), one), (one, one))
     c1 = [("x1", "y1")]
     cs = [
-        ("avx2 ExtendedPoint::from(EdwardsPoint)", r"<" + r"[\w:]*" + VX + r"ExtendedPoint as core::convert::From<[\w:]*EdwardsPoint>>::from$", [extended(F, 1)], "vext", P1, ()),
-        ("avx2 EdwardsPoint::from(ExtendedPoint)", VX + r"<impl core::convert::From<[\w:]*ExtendedPoint> for [\w:]*EdwardsPoint>::from$", [vext(1)], "extended", P1, ()),
-        ("avx2 CachedPoint::from(ExtendedPoint)", r"<[\w:]*" + VX + r"CachedPoint as core::convert::From<[\w:]*ExtendedPoint>>::from$", [vext(1)], "vcached", P1, ()),
-        ("avx2 ExtendedPoint::double", VX + r"ExtendedPoint::double$", [vext(1)], "vext", ((dx, ddx), (dy, ddy)), c1),
-        ("avx2 ExtendedPoint + CachedPoint", r"<&[\w:]*" + VX + r"ExtendedPoint as core::ops::Add<&[\w:]*CachedPoint>>::add$", [vext(1), vcached(2)], "vext", ((sx, sdx), (sy, sdy)), ()),
-        ("avx2 ExtendedPoint - CachedPoint", r"<&[\w:]*" + VX + r"ExtendedPoint as core::ops::Sub<&[\w:]*CachedPoint>>::sub$", [vext(1), vcached(2)], "vext", ((mx, mdx), (my, mdy)), ()),
-        ("avx2 -CachedPoint", r"<&[\w:]*" + VX + r"CachedPoint as core::ops::Neg>::neg$", [vcached(1)], "vcached", ((fneg(x1), one), (y1, one)), ()),
-        ("avx2 ExtendedPoint::identity", r"<[\w:]*" + VX + r"ExtendedPoint as [\w:]*Identity>::identity$", [], "vext", ID, ()),
-        ("avx2 CachedPoint::identity", r"<[\w:]*" + VX + r"CachedPoint as [\w:]*Identity>::identity$", [], "vcached", ID, ()),
+        (backend + " ExtendedPoint::from(EdwardsPoint)", r"<" + r"[\w:]*" + VX + r"ExtendedPoint as core::convert::From<[\w:]*EdwardsPoint>>::from$", [extended(F, 1)], "vext", P1, ()),
+        (backend + " EdwardsPoint::from(ExtendedPoint)", VX + r"<impl core::convert::From<[\w:]*ExtendedPoint> for [\w:]*EdwardsPoint>::from$", [vext(1)], "extended", P1, ()),
+        (backend + " CachedPoint::from(ExtendedPoint)", r"<[\w:]*" + VX + r"CachedPoint as core::convert::From<[\w:]*ExtendedPoint>>::from$", [vext(1)], "vcached", P1, ()),
+        (backend + " ExtendedPoint::double", VX + r"ExtendedPoint::double$", [vext(1)], "vext", ((dx, ddx), (dy, ddy)), c1),
+        (backend + " ExtendedPoint + CachedPoint", r"<&(?:'\w+ )?[\w:]*" + VX + r"ExtendedPoint as core::ops::Add<&(?:'\w+ )?[\w:]*CachedPoint>>::add$", [vext(1), vcached(2)], "vext", ((sx, sdx), (sy, sdy)), ()),
+        (backend + " ExtendedPoint - CachedPoint", r"<&(?:'\w+ )?[\w:]*" + VX + r"ExtendedPoint as core::ops::Sub<&(?:'\w+ )?[\w:]*CachedPoint>>::sub$", [vext(1), vcached(2)], "vext", ((mx, mdx), (my, mdy)), ()),
+        (backend + " -CachedPoint", r"<&(?:'\w+ )?[\w:]*" + VX + r"CachedPoint as core::ops::Neg>::neg$", [vcached(1)], "vcached", ((fneg(x1), one), (y1, one)), ()),
+        (backend + " ExtendedPoint::identity", r"<[\w:]*" + VX + r"ExtendedPoint as [\w:]*Identity>::identity$", [], "vext", ID, ()),
+        (backend + " CachedPoint::identity", r"<[\w:]*" + VX + r"CachedPoint as [\w:]*Identity>::identity$", [], "vcached", ID, ()),
     ]
     for inst, rx, args, kind, (x, y), curve in cs:
         fs = [f for f in F.fns.values() if "mir" in f and f["kind"] != "Closure" and re.search(rx, f["path"])]
@@ -422,21 +423,21 @@ def vector_cases(F, fe_ty):
         if kind == "extended":
             bad = check_point(F, kind, ret, x, y, curve)
         else:
-            bad = check_vec(kind, as_lanes(ip, ret), x, y, curve)
+            bad = check_vec(kind, as_lanes(ip, ret, backend), x, y, curve)
         if bad:
             yield inst, f, False, "; ".join(bad)
         else:
             yield inst, f, True, "lanes = the expected point as a rational identity%s (%d lane-parallel field operations)" % (" modulo the curve equation" if curve else "", ip.models.ops)
 
 
-def as_lanes(ip, ret):
+def as_lanes(ip, ret, backend="avx2"):
     """normalise a returned ExtendedPoint / CachedPoint: constants are decoded into their four lanes"""
     if ret is None or lanes(ret) is not None:
         return ret
     if ret[0] == "st" and len(ret[1]) == 1:
         class _St:
             frames = []
-        v = ip.models.v4(ip, _St(), ret[1][0])
+        v = ip.models.v4(ip, _St(), ret[1][0], backend)
         if v is not None:
             return ("st", (v,))
     return ret
